@@ -95,6 +95,8 @@ pub fn run(tier: Tier) -> i32 {
     let mut rep = Reporter::new("C17", tier, "model_checking");
     let (systems, depths) = systems();
     explore_all(&mut rep, &systems, |s| tier.pick(depths[&s.name].0.saturating_sub(1).max(3), depths[&s.name].1), tier.pick(8.0, 300.0));
+    let sweep: Vec<_> = build("C17", &MON, crate::c08::sweep_defs(tier == Tier::Quick), true).into_iter().map(|(s, _)| s).collect();
+    explore_more(&mut rep, "sweep", &sweep, tier.pick(3, 4), tier.pick(2.0, 30.0));
     // (b) loom
     let bound = tier.pick(3, 6);
     let out = std::process::Command::new("/verif/target/loom/release/loomck").arg(bound.to_string()).output();
@@ -141,6 +143,7 @@ pub fn replay(r: &serde_json::Value) {
         println!("loomck exited with {:?}; rerun `./check C17 quick` for the verdict", st);
         return;
     }
-    let (systems, _) = systems();
+    let (mut systems, _) = systems();
+    systems.extend(build("C17", &MON, crate::c08::sweep_defs(false), true).into_iter().map(|(s, _)| s));
     replay_world(&systems, r);
 }
